@@ -6,7 +6,7 @@ import threading
 
 class Mock:
     def __init__(self, behaviour, body=b"", status=200, content_type="application/json"):
-        self.behaviour = behaviour      # ok | chunked | close-before-headers | close-mid-body | slow-ok
+        self.behaviour = behaviour      # ok | chunked | chunked-no-terminator | close-before-headers | close-mid-body | close-after-body-short-of-length
         self.body = body
         self.status = status
         self.content_type = content_type
@@ -82,6 +82,14 @@ class Mock:
                     part = body[i:i + step]
                     conn.sendall(("%x\r\n" % len(part)).encode() + part + b"\r\n")
                 conn.sendall(b"0\r\n\r\n")
+            elif b == "chunked-no-terminator":
+                # every byte of the body arrives, but the stream ends without the terminating zero-length chunk
+                conn.sendall(("HTTP/1.1 %d %s\r\nContent-Type: %s\r\nTransfer-Encoding: chunked\r\nConnection: close\r\n\r\n" % (self.status, reason, self.content_type)).encode())
+                conn.sendall(("%x\r\n" % len(self.body)).encode() + self.body + b"\r\n")
+            elif b == "close-after-body-short-of-length":
+                # the whole (parseable) body arrives, but Content-Length announced more: the message is incomplete
+                conn.sendall(("HTTP/1.1 %d %s\r\nContent-Type: %s\r\nContent-Length: %d\r\nConnection: close\r\n\r\n" % (self.status, reason, self.content_type, len(self.body) + 1000)).encode())
+                conn.sendall(self.body)
             elif b == "close-mid-body":
                 conn.sendall(("HTTP/1.1 %d %s\r\nContent-Type: %s\r\nContent-Length: %d\r\nConnection: close\r\n\r\n" % (self.status, reason, self.content_type, len(self.body) + 1000)).encode())
                 conn.sendall(self.body[: max(1, len(self.body) // 2)])
